@@ -5,6 +5,8 @@ import (
 	"fmt"
 	"sync"
 	"time"
+
+	"github.com/rqlite/rqlite/v10/internal/vhook"
 )
 
 var (
@@ -37,11 +39,13 @@ func (c *CheckAndSet) Begin(owner string) error {
 	c.mu.Lock()
 	defer c.mu.Unlock()
 	if c.state {
+		vhook.Trace(c, "cas.begin", "owner", owner, "ok", false)
 		return fmt.Errorf(`%w: currently held by owner "%s" for %s`, ErrCASConflict, c.owner, time.Since(c.startT))
 	}
 	c.owner = owner
 	c.state = true
 	c.startT = time.Now()
+	vhook.Trace(c, "cas.begin", "owner", owner, "ok", true)
 	return nil
 }
 
@@ -74,6 +78,7 @@ func (c *CheckAndSet) End() {
 	c.owner = ""
 	c.state = false
 	c.startT = time.Time{}
+	vhook.Trace(c, "cas.end")
 }
 
 // Owner returns the current owner of the critical section.
